@@ -60,4 +60,4 @@ def null_condition_variable(c, problems):
     names = set(re.findall(r"@(?:skip|include)\(if: \$(\w+)\)", c.query if isinstance(c.query, str) else ""))
     vs = c.variables if isinstance(c.variables, dict) else {}
     if not any(n in vs and vs[n] is None for n in names): return False
-    return bool(problems) and all(("!= selected" in p) or ("called 0 times" in p) for p in problems)
+    return bool(problems) and all(("!= selected" in p) or ("called 0 times" in p) or ("but no error is reported for that field" in p) for p in problems)
